@@ -144,9 +144,33 @@ class FakeValue:
         self.s.trace.append([self.s.me(), 3, v])
 
 
+# model value id -> the Python values of that ==/hash class.  Ids 0..3 are
+# FALSY values (0 == False == 0.0 is one class; '', () and b'' are three
+# more): legal stored values that a worker must still find in the shared
+# store after its sync.
+FALSY = {0: [0, False, 0.0], 1: [''], 2: [()], 3: [b'']}
+
+
+def pyval(n, task=0):
+    """ the Python value task `task` uses for model value n """
+    if n in FALSY:
+        return FALSY[n][task % len(FALSY[n])]
+    return f"v{n}"
+
+
+_VID = {}
+for _n, _reps in FALSY.items():
+    for _r in _reps:
+        _VID[_r] = _n            # dict lookup = Python's own ==/hash classes
+
+
 def vid(x):
-    """ python value "v<n>" <-> model value n """
-    return int(x[1:]) if isinstance(x, str) else x
+    """ Python value (a stored value or a store index) -> model number.
+    Only called on values, or on indices of data; an index is an int that
+    is returned unchanged by the callers that know it is an index. """
+    if isinstance(x, str) and x.startswith('v'):
+        return int(x[1:])
+    return _VID[x]
 
 
 class FakeDict:
@@ -155,22 +179,34 @@ class FakeDict:
         self.code = code
         self.d = {}
 
+    # data (code 0): index -> value; reverse maps: value -> index
+    def kid(self, k):
+        return k if self.code == 0 else vid(k)
+
+    def xid(self, v):
+        return vid(v) if self.code == 0 else v
+
     def __setitem__(self, k, v):
         self.s.point('set')
         self.d[k] = v
-        self.s.trace.append([self.s.me(), 4, self.code, vid(k), vid(v)])
+        self.s.trace.append([self.s.me(), 4, self.code, self.kid(k),
+                             self.xid(v)])
 
     def __contains__(self, k):
         self.s.point('contains')
         r = k in self.d
-        self.s.trace.append([self.s.me(), 5, self.code, vid(k), int(r)])
+        self.s.trace.append([self.s.me(), 5, self.code, self.kid(k), int(r)])
         return r
 
     def __getitem__(self, k):
         self.s.point('get')
         r = self.d[k]
-        self.s.trace.append([self.s.me(), 6, self.code, vid(k), vid(r)])
+        self.s.trace.append([self.s.me(), 6, self.code, self.kid(k),
+                             self.xid(r)])
         return r
+
+    def dump(self):
+        return sorted([self.kid(k), self.xid(v)] for k, v in self.d.items())
 
     def __len__(self):
         return len(self.d)
@@ -222,7 +258,7 @@ def run_real(bsize, progs, schedule, complete=True, explore=False):
         sched.tls.task = t
         try:
             for (ns, v) in progs[t]:
-                val = f"v{v}"
+                val = pyval(v, t)
                 args = [None, None, None]
                 args[{0: 2, 1: 0, 2: 1}[ns]] = val
                 r = stores[t].add(*args)
@@ -292,8 +328,7 @@ def run_real(bsize, progs, schedule, complete=True, explore=False):
             'errors': errors, 'deadlock': deadlock,
             'ptr': shared['ptr']._v,  # noqa pylint: disable=protected-access
             'lock_free': sched.holder is None,
-            'shared': [sorted([vid(k), vid(v)] for k, v in
-                              shared[name].d.items()) for name in DICTS]}
+            'shared': [shared[name].dump() for name in DICTS]}
 
 
 def judge(bsize, out):
@@ -465,12 +500,21 @@ def explore_all(bsize, progs, cap):
 
 
 def real_mp_runs(chk):
-    """ real multi-process FileSearcher runs: every value read back is the
-    captured one and no two files share an index block """
+    """ real multi-process FileSearcher runs: every index a worker handed
+    out resolves - after the run - to the value that worker stored (values
+    include the falsy 0 and ''), and no two files share an index block """
     from searchkit import FileSearcher, SearchDef
+    from searchkit.search import ResultFieldInfo
     bad = []
     d = tempfile.mkdtemp(prefix='c06mp_', dir=chk.work)
     n_runs = 2 if chk.quick else 6
+    pat = re.compile(r'x (\d+) (\S+) e(\w*)')
+
+    def read(g, i):
+        try:
+            return g.get(i)
+        except Exception as exc:  # pylint: disable=broad-except
+            return f"<raised {type(exc).__name__}: {exc}>"
     try:
         for r in range(n_runs):
             nfiles = chk.rng.choice([3, 5, 8])
@@ -480,11 +524,15 @@ def real_mp_runs(chk):
                 nl = chk.rng.choice([1, 700, 1000, 1001, 2300])
                 with open(p, 'w') as f:
                     for j in range(nl):
-                        # values shared between files and unique ones
-                        f.write(f"x common{j % 50} u{i}_{j}\n")
+                        # shared and unique values; 0 and '' are legal values
+                        f.write(f"x {j % 4} u{i}_{j} e"
+                                f"{'' if j % 3 else 'common' + str(j % 50)}"
+                                "\n")
                 paths.append(p)
             s = FileSearcher(max_parallel_tasks=4)
-            s.add(SearchDef(r'x (\S+) (\S+)', tag=f"t{r}"),
+            s.add(SearchDef(pat.pattern, tag=f"t{r}",
+                            field_info=ResultFieldInfo(
+                                {'n': int, 'u': None, 'e': str})),
                   os.path.join(d, f"r{r}_f*.txt"))
             old = signal.signal(signal.SIGALRM, lambda *a: (_ for _ in ()
                                                             ).throw(
@@ -504,13 +552,17 @@ def real_mp_runs(chk):
                                f"{len(lines)} lines")
                     continue
                 for ln, (line, g) in enumerate(zip(lines, got), 1):
-                    m = re.match(r'x (\S+) (\S+)', line)
-                    if (g.linenumber, g.get(1), g.get(2), g.tag) != \
-                            (ln, m.group(1), m.group(2), f"t{r}"):
-                        bad.append(f"run {r}: {p}:{ln}: read back "
-                                   f"{(g.get(1), g.get(2), g.tag)!r}")
+                    m = pat.match(line)
+                    want = (ln, int(m.group(1)), m.group(2), m.group(3))
+                    have = (g.linenumber, read(g, 1), read(g, 2), read(g, 3))
+                    if have != want:
+                        bad.append(f"run {r}: {os.path.basename(p)}:{ln}: "
+                                   f"line {line!r} read back {have[1:]!r}, "
+                                   f"stored {want[1:]!r}")
                         break
                     for part in g.data:
+                        if part[1] is None:
+                            continue
                         blk = part[1] // 1000
                         if owner.setdefault(blk, p) != p:
                             bad.append(f"run {r}: index block {blk} used by "
@@ -534,15 +586,16 @@ def run(chk):
         "for 3-4 tasks x 0-3 requests + round-robin / k-then-other patterns;"
         " non-trivial = at least two tasks requested a block")
     cases = []          # (bsize, progs, schedule, kind)
-    pool = list(range(1, 12))
+    pool = list(range(0, 12))       # 0..3 are falsy values, see FALSY
     # --- exhaustive, 2 tasks
-    pairs = [(1, [[(0, 1)], [(0, 2)]]),
-             (1, [[(0, 1), (1, 2)], [(0, 1), (0, 3)]]),
-             (1, [[(0, 1), (0, 2)], [(2, 1)]]),
-             (2, [[(0, 1), (1, 2), (0, 3)], [(0, 3), (0, 4), (2, 5)]]),
+    # (namespace, value id); value ids 0..3 are falsy Python values
+    pairs = [(1, [[(0, 0)], [(0, 1)]]),
+             (1, [[(0, 1), (1, 5)], [(0, 0), (0, 6)]]),
+             (1, [[(0, 4), (0, 2)], [(2, 4)]]),
+             (2, [[(0, 0), (1, 5), (0, 3)], [(0, 3), (0, 4), (2, 1)]]),
              (2, [[(0, 1), (0, 1), (1, 1)], [(0, 2), (0, 1), (0, 7)]]),
-             (1, [[], [(0, 1), (0, 2)]]),
-             (3, [[(0, 1), (0, 2), (0, 3), (0, 4)], [(1, 4)]])]
+             (1, [[], [(0, 0), (0, 8)]]),
+             (3, [[(0, 5), (0, 0), (0, 1), (0, 4)], [(1, 0)]])]
     for _ in range(6 if chk.quick else 30):
         if True:
             b = rng.choice([1, 2, 3])
